@@ -229,6 +229,18 @@ impl TypeChecker {
             )));
         }
 
+        // A dimension type that is written in terms of type parameters (from an
+        // annotation) is closed, so the constraint above is resolved on the spot.
+        // Remember that these type parameters are used as dimensions, such that a
+        // missing `Dim` bound can be detected.
+        if let Type::Dimension(dtype) = type_ {
+            for (factor, _) in dtype.factors() {
+                if let DTypeFactor::TPar(name) = factor {
+                    self.add_dtype_constraint(&Type::TPar(name.clone())).ok();
+                }
+            }
+        }
+
         Ok(())
     }
 
@@ -613,6 +625,9 @@ impl TypeChecker {
                             if type_lhs.is_closed() && type_rhs.is_closed() {
                                 let lhs_dtype = dtype(&lhs_checked)?;
                                 let rhs_dtype = dtype(&rhs_checked)?;
+
+                                self.enforce_dtype(&type_lhs, lhs_checked.full_span())?;
+                                self.enforce_dtype(&type_rhs, rhs_checked.full_span())?;
 
                                 let result_dtype = match op {
                                     typed_ast::BinaryOperator::Mul => {
